@@ -30,6 +30,14 @@ func checkC07(c *Check) {
 	ruleReaderShutdown(c, p, "R07.6")
 	ruleHeaderGate(c, p, "R07.11")
 	c.RuleDoc["R07.11"] = "= R19.2: a descriptor is accepted only behind the check-byte comparison and the block-size validity test (an undefined block-size code would reach the buffer pools, whose lookup panics)"
+	ruleBuffersRefetched(c, p, "R07.14", "Reader")
+	ruleStreamFieldsRearmed(c, p, "R07.14")
+	c.RuleDoc["R07.14"] = "= R17.8/R17.9 for the Reader: block buffer and position are re-initialised for every stream in every mode (a stale position indexes a nil or shorter buffer)"
+	{
+		cases := []asmCase{{false, false}, {false, true}}
+		runAsm(c, p, cases, map[string]string{"result": "R07.15"})
+		c.RuleDoc["R07.15"] = "= R03.2: the assembly decoder's result is a negative constant or a count within [0, len(dst)] (the frame layer slices the pooled buffer with it)"
+	}
 	ruleConsumerDrains(c, p, "R07.13")
 	c.RuleDoc["R07.13"] = "the consumer of the concurrent decoder reads the error latch only once the data channel has delivered an empty buffer (otherwise an early error return strands the pipeline goroutines)"
 	ruleObservationalCollapse(c, "R07.12")
